@@ -223,6 +223,8 @@ struct Probe {
     first_wrong: usize,
     /// run with a logger installed and the level at Trace
     log_trace: bool,
+    /// comparison group: probes of one group must have identical traces
+    group: &'static str,
 }
 
 fn same_class_other(r: &mut Rng, c: u8) -> u8 {
@@ -322,6 +324,7 @@ fn make_probes(seed: u64, reqs: &[Req], positions: &[usize], multi: usize) -> Ve
                 mode: Mode::Validate,
                 first_wrong: p,
                 log_trace: false,
+                group: "lower",
             });
         }
         // all characters wrong, and random multi-position variants
@@ -333,6 +336,7 @@ fn make_probes(seed: u64, reqs: &[Req], positions: &[usize], multi: usize) -> Ve
             mode: Mode::Validate,
             first_wrong: 0,
             log_trace: false,
+                group: "lower",
         });
         for m in 0..multi {
             let mut s = q.sig.clone().into_bytes();
@@ -354,6 +358,7 @@ fn make_probes(seed: u64, reqs: &[Req], positions: &[usize], multi: usize) -> Ve
                 mode: Mode::Validate,
                 first_wrong: first,
                 log_trace: false,
+                group: "lower",
             });
         }
         // determinism control: the same probe again
@@ -366,6 +371,7 @@ fn make_probes(seed: u64, reqs: &[Req], positions: &[usize], multi: usize) -> Ve
             mode: Mode::Validate,
             first_wrong: positions[0],
             log_trace: false,
+                group: "lower",
         });
         // the correct signature (success path; traced, excluded from the comparison)
         v.push(Probe {
@@ -375,6 +381,7 @@ fn make_probes(seed: u64, reqs: &[Req], positions: &[usize], multi: usize) -> Ve
             mode: Mode::Validate,
             first_wrong: 64,
             log_trace: false,
+                group: "lower",
         });
         // sensitivity control: harness-local `==` over the same inputs
         for p in [0usize, 31, 63] {
@@ -387,6 +394,7 @@ fn make_probes(seed: u64, reqs: &[Req], positions: &[usize], multi: usize) -> Ve
                 mode: Mode::ControlCompare,
                 first_wrong: p,
                 log_trace: false,
+                group: "lower",
             });
         }
         // the same position probes once more with a logger installed and the level at Trace: log macros then
@@ -397,10 +405,40 @@ fn make_probes(seed: u64, reqs: &[Req], positions: &[usize], multi: usize) -> Ve
             .map(|p| Probe {
                 label: format!("{}+trace-logging", p.label),
                 log_trace: true,
+                group: "lower+trace-logging",
                 ..p.clone()
             })
             .collect();
         v.extend(twins);
+        // other spellings of the wrong signature: all letters in upper case, and lower case with one upper-case letter
+        // far from the probed position (a verifier that is lenient about hex case must still not compare early-exit)
+        let spell: Vec<Probe> = v
+            .iter()
+            .filter(|p| p.request == k && p.mode == Mode::Validate && p.group == "lower" && p.label.starts_with("wrong-at-"))
+            .flat_map(|p| {
+                let upper = p.presented.to_ascii_uppercase();
+                let mut one = p.presented.clone().into_bytes();
+                let far = (0..64).rev().find(|i| one[*i].is_ascii_lowercase() && (*i as isize - p.first_wrong as isize).abs() > 2);
+                if let Some(i) = far {
+                    one[i] = one[i].to_ascii_uppercase();
+                }
+                vec![
+                    Probe {
+                        label: format!("{}+upper-case", p.label),
+                        presented: upper,
+                        group: "upper-case",
+                        ..p.clone()
+                    },
+                    Probe {
+                        label: format!("{}+one-upper-case-letter", p.label),
+                        presented: String::from_utf8(one).unwrap(),
+                        group: "one-upper-case-letter",
+                        ..p.clone()
+                    },
+                ]
+            })
+            .collect();
+        v.extend(spell);
     }
     v
 }
@@ -524,23 +562,30 @@ fn analyse(reqs: &[Req], probes: &[Probe], traces: &[Trace], profile: &str) -> S
         let mut differing: Vec<(usize, Trace)> = Vec::new();
         let mut wrong: Vec<usize> = Vec::new();
         let mut base = traces[mine[0]];
-        for logging in [false, true] {
-            let group: Vec<usize> = mine.iter().copied().filter(|i| probes[*i].mode == Mode::Validate && probes[*i].first_wrong < 64 && probes[*i].log_trace == logging).collect();
+        for gname in ["lower", "lower+trace-logging", "upper-case", "one-upper-case-letter"] {
+            let group: Vec<usize> = mine.iter().copied().filter(|i| probes[*i].mode == Mode::Validate && probes[*i].first_wrong < 64 && probes[*i].group == gname).collect();
             if group.is_empty() {
                 continue;
             }
             let b = traces[group[0]];
-            if !logging {
+            if gname == "lower" {
                 base = b;
             }
             for &i in &group {
                 if traces[i] != b {
                     differing.push((i, traces[i]));
                 }
-                t.nontrivial(sv::prng::fnv64(format!("{}|{}|{}|{}", profile, k, probes[i].presented, logging).as_bytes()));
+                t.nontrivial(sv::prng::fnv64(format!("{}|{}|{}|{}", profile, k, probes[i].presented, gname).as_bytes()));
             }
-            t.add(if logging { "wrong_signature_traces_compared_with_trace_logging" } else { "wrong_signature_traces_compared" }, group.len() as u64);
-            if logging && b == base {
+            t.add(
+                match gname {
+                    "lower" => "wrong_signature_traces_compared",
+                    "lower+trace-logging" => "wrong_signature_traces_compared_with_trace_logging",
+                    _ => "wrong_signature_traces_compared_in_other_hex_case",
+                },
+                group.len() as u64,
+            );
+            if gname == "lower+trace-logging" && b == base {
                 t.inconclusive.push(format!("[{}] trace-logging control failed: traces with a trace-level logger equal those without (log macros not evaluated?)", profile));
                 controls_ok = false;
             }
@@ -565,7 +610,7 @@ fn analyse(reqs: &[Req], probes: &[Probe], traces: &[Trace], profile: &str) -> S
         if !differing.is_empty() && controls_ok {
             let mut detail = format!("[{}] request {}: refusal traces differ with the position of the wrong character: reference (first wrong at {}, logging off) = {} steps; ", profile, q.label, probes[wrong[0]].first_wrong, base.steps);
             for (i, tr) in differing.iter().take(6) {
-                detail.push_str(&format!("first wrong at {}{} → {} steps (hash {:016x}); ", probes[*i].first_wrong, if probes[*i].log_trace { " [trace logging]" } else { "" }, tr.steps, tr.hash));
+                detail.push_str(&format!("first wrong at {}{} → {} steps (hash {:016x}); ", probes[*i].first_wrong, format!(" [{}]", probes[*i].group), tr.steps, tr.hash));
             }
             let case = case_with_sig(q, 0, k, &probes[differing[0].0].presented);
             t.violate(Violation {
@@ -660,6 +705,7 @@ fn main() {
     }
     ctx.gate("requests whose refusal traces were all identical", tally.get("requests_with_identical_refusal_traces"), nreq as u64);
     ctx.gate("wrong-signature traces compared", tally.get("wrong_signature_traces_compared"), (nreq * (positions.len() + 1 + multi)) as u64);
+    ctx.gate("wrong-signature traces compared in upper case / with one upper-case letter", tally.get("wrong_signature_traces_compared_in_other_hex_case"), (nreq * positions.len() * 2) as u64);
     ctx.gate("wrong-signature traces compared with a trace-level logger installed", tally.get("wrong_signature_traces_compared_with_trace_logging"), (nreq * (positions.len() + 1)) as u64);
     ctx.gate("sensitivity control (early-exit compare is position-dependent under the memcmp override)", tally.get("control_early_exit_compare_is_position_dependent"), nreq as u64);
     ctx.gate("determinism control (same probe, same trace)", tally.get("control_same_probe_same_trace"), nreq as u64);
@@ -669,7 +715,7 @@ fn main() {
     ctx.exhaustive("first-difference positions 0–63 for each traced request", tier == Tier::Thorough);
     let rep = Report {
         level: "exploration",
-        rule: "Instruction-trace monitor: the process warms all lazily initialised globals, then forks one child per probe; the child builds its request, raises SIGSTOP, performs the single validation call, raises SIGSTOP again; the parent single-steps the child between the two stops with ptrace and folds every instruction address into (step count, 64-bit FNV hash). All children are forks of one warmed single-threaded parent (same layout, allocator state, hash seeds); probes differ only in the signature text: first wrong character at each probed position (digit for digit, letter for letter), all characters wrong, random multi-position variants. Verdict: identical (count, hash) for all refusals of one request. Controls: same probe twice ⇒ same trace; a harness-local `==` over the same inputs must show position-dependent lengths (proves the byte-wise memcmp/bcmp override is effective). Distinct = distinct (request, wrong signature) traces compared.".into(),
+        rule: "Instruction-trace monitor: the process warms all lazily initialised globals, then forks one child per probe; the child builds its request, raises SIGSTOP, performs the single validation call, raises SIGSTOP again; the parent single-steps the child between the two stops with ptrace and folds every instruction address into (step count, 64-bit FNV hash). All children are forks of one warmed single-threaded parent (same layout, allocator state, hash seeds); probes differ only in the signature text: first wrong character at each probed position (digit for digit, letter for letter), all characters wrong, random multi-position variants; every position probe is repeated with a trace-level logger installed (log-macro arguments are then evaluated), with the whole signature in upper case, and with one far-away letter in upper case. Verdict: identical (count, hash) for all refusals of one request within each of these four groups. Controls: same probe twice ⇒ same trace; a harness-local `==` over the same inputs must show position-dependent lengths (proves the byte-wise memcmp/bcmp override is effective). Distinct = distinct (request, wrong signature) traces compared.".into(),
         assumptions: vec![
             "decides the property as stated (instruction sequence), not micro-architectural timing".into(),
             "the success path (correct signature) is traced but excluded from the comparison".into(),
